@@ -77,7 +77,7 @@ def build_base(cfg):
         zkutils.put(admin, z.path.partition(label), data)
     for name, parent in cfg['buckets']:
         masterapi.create_bucket(admin, name, parent)
-        if parent is None:
+        if parent is None and name not in cfg.get('out_of_cell', ()):
             masterapi.cell_insert_bucket(admin, name)
     sid = 10
     for name, spec in cfg['servers'].items():
@@ -136,6 +136,7 @@ class MasterWorld:
         self.down_since_L = {}
         self.marked = set()
         self.truth = {}         # server -> 'up' | 'down' | 'frozen' (harness truth)
+        self.pending_truth = []  # freeze/unfreeze events not yet processed
         self.bl_idx = 0
         self.late = False
         self.undelivered = []   # [(path, children)] captured, not yet processed
@@ -215,7 +216,8 @@ class MasterWorld:
         m.process_scheduled(self.children(z.SCHEDULED))
         m.process_events(self.children(z.EVENTS))
         m.process_blackedout_servers(self.children(z.BLACKEDOUT_SERVERS))
-        self._track_states()
+        self._apply_pending_truth()
+        self._track_states(full=True)
         if cycle:
             self.cycle()
 
@@ -232,7 +234,14 @@ class MasterWorld:
         del cellworld._QUEUES[:]
         del cellworld._PUT_LOG[:]
         pre = cellworld.snapshot_cell(m.cell) if self.cellmonitors else None
+        sched_before = self.children(z.SCHEDULED)
         m.reschedule()
+        if self.children(z.SCHEDULED) != sched_before and not any(
+                p == z.SCHEDULED for p, _k in self.undelivered):
+            # the master unscheduled instances itself (_unschedule_evicted):
+            # its own /scheduled watch fires and is processed later
+            self.undelivered.append(
+                (z.SCHEDULED, list(self.children(z.SCHEDULED))))
         self.last_results = list(_SCHEDULE_RESULTS)
         self.stats['cycles'] += 1
         if self.cellmonitors:
@@ -253,33 +262,36 @@ class MasterWorld:
     def deliver(self, *paths):
         """Deliver the children watches of the given paths, in that order.
 
-        With `self.late` set (deviation 'L'), the children lists are captured
-        now - as the watcher thread would when the notification arrives - but
-        processed only before the next delivery: the master works through its
-        queue in order, so a stale list is processed after later changes
-        reached ZooKeeper."""
+        Model of the watcher threads: at most one notification per path is
+        outstanding (the watcher blocks until the master has processed it).
+        With `self.late` set (deviation 'L') the children list is captured now
+        - as the watcher thread would when the notification arrives - but
+        processed later, i.e. after later changes reached ZooKeeper.  When an
+        outstanding notification is finally processed and the children have
+        changed meanwhile, the re-armed watch fires again; that new
+        notification arrives asynchronously and is processed at the next
+        delivery (so a scheduling cycle can fall in between)."""
+        outstanding = {p for p, _k in self.undelivered}
         if self.late:
             for path in paths:
-                # one outstanding notification per path: the watcher blocks
-                # until the master has processed it
-                if not any(p == path for p, _k in self.undelivered):
+                if path not in outstanding:
                     self.undelivered.append((path, list(self.children(path))))
+                    outstanding.add(path)
             return
         queue, self.undelivered = self.undelivered, []
-        stale = [p for p, _k in queue]
-        for path in stale + [p for p in paths if p not in stale]:
-            # after a stale list is processed the watch re-arms and reports
-            # the current children if they differ
-            captured = [k for p, k in queue if p == path]
-            current = self.children(path) if (
-                path in paths or captured) else None
-            for kids in captured:
-                self._process(path, kids)
-                current = self.children(path)
-                if current == kids:
-                    current = None
-            if current is not None:
-                self._process(path, current)
+        for path, kids in queue:
+            self._process(path, kids)
+            current = self.children(path)
+            changed = current != kids
+            if path == z.EVENTS:
+                # the master deletes the event nodes it processed itself
+                changed = bool(set(current) - set(kids))
+            if changed and path not in paths:
+                self.undelivered.append((path, list(current)))
+            if path == z.EVENTS:
+                self._apply_pending_truth()
+        for path in paths:
+            self._process(path, self.children(path))
 
     def _process(self, path, kids):
         m = self.master
@@ -289,6 +301,7 @@ class MasterWorld:
             m.process_events(kids)
         elif path == z.SERVER_PRESENCE:
             m.process_server_presence(kids)
+            self._presence_examined(kids)
         elif path == z.BLACKEDOUT_SERVERS:
             m.process_blackedout_servers(kids)
         m.up_to_date = False
@@ -332,7 +345,6 @@ class MasterWorld:
             node = self.tree.client()
             zkutils.put(node, z.path.server_presence(name), {},
                         ephemeral=True)
-            self.truth.pop(name, None)
             self.deliver(z.EVENTS, z.SERVER_PRESENCE)
         elif kind == 'srv':
             # admin changes the record of a server (capacity / partition /
@@ -384,15 +396,19 @@ class MasterWorld:
                 if state == 'frozen':
                     self.marked.update((name, a) for a in apps)
             masterapi.update_server_state(admin, name, state, apps)
-            if state == 'frozen':
-                self.truth[name] = 'frozen'
-            else:
-                self.truth.pop(name, None)
             self.deliver(z.EVENTS)
+            # the freeze truth changes when the master processes the event
+            self.pending_truth.append((name, state))
+            if not self.late:
+                self._apply_pending_truth()
         elif kind == 'bl':
             self.bl_idx = body[1]
             zkutils.put(admin, z.BLACKEDOUT_APPS, cfg['blacklists'][body[1]])
             masterapi.create_event(admin, 0, 'apps_blacklist', None)
+            self.deliver(z.EVENTS)
+        elif kind == 'srvp':
+            # admin moves a server below another bucket
+            masterapi.update_server_parent(admin, body[1], body[2])
             self.deliver(z.EVENTS)
         elif kind == 'blk':
             node = z.path.blackedout_server(body[1])
@@ -430,18 +446,23 @@ class MasterWorld:
         if cyc:
             self.cycle()
 
-    def _track_states(self):
-        """Harness-side truth about server states, independent of the model:
-        a server is down from the moment its presence node disappears, frozen
-        while a freeze event stands and presence exists; otherwise the
-        model's own state (up, or down by an explicit state event) is used."""
-        present = set(self.children(z.SERVER_PRESENCE))
+    def _track_states(self, full=False):
+        """Harness-side truth about server states, independent of the model.
+
+        Presence: when the master processes a presence notification it
+        re-checks ZooKeeper for exactly the servers on which the list
+        disagrees with what it knew; `_presence_examined` mirrors that from
+        the harness' own truth.  `full=True` (master start) reads everything.
+        Frozen: while a processed freeze event stands.  Otherwise the model's
+        own state (up, or down by an explicit state event) is used."""
         known = set(self.children(z.SERVERS))
-        for name in known:
-            if name not in present:
-                self.truth[name] = 'down'
-            elif self.truth.get(name) == 'down':
-                self.truth.pop(name)          # came back: up
+        if full:
+            live = set(self.children(z.SERVER_PRESENCE))
+            for name in known:
+                if name not in live:
+                    self.truth[name] = 'down'
+                elif self.truth.get(name) == 'down':
+                    self.truth.pop(name)
         for name in list(self.truth):
             if name not in known:
                 del self.truth[name]
@@ -458,12 +479,37 @@ class MasterWorld:
             if name not in known:
                 del self.down_since_L[name]
 
+    def _presence_examined(self, kids):
+        live = set(self.children(z.SERVER_PRESENCE))
+        for name in self.children(z.SERVERS):
+            known_present = self.truth.get(name) != 'down'
+            if (name in kids) != known_present:
+                if name in live:
+                    if self.truth.get(name) == 'down':
+                        self.truth.pop(name)
+                else:
+                    self.truth[name] = 'down'
+        self._track_states()
+
+    def _apply_pending_truth(self):
+        for name, state in self.pending_truth:
+            if state == 'frozen':
+                self.truth[name] = 'frozen'
+            else:
+                self.truth.pop(name, None)
+        self.pending_truth = []
+
     def truth_state(self, name, model_state):
+        # self.truth only changes at points where the master has processed
+        # every presence notification (see _track_states), so it is what the
+        # master can know even while a newer notification is outstanding
         return {'down': State.down,
                 'frozen': State.frozen}.get(self.truth.get(name), model_state)
 
     def truth_blacklisted(self, appname, model_flag):
         import fnmatch
+        if any(p == z.EVENTS for p, _k in self.undelivered):
+            return model_flag
         base = appname.split('#')[0]
         return any(fnmatch.fnmatch(base, pat)
                    for pat in self.cfg.get('blacklists', [[]])[self.bl_idx])
@@ -592,6 +638,12 @@ class MasterWorld:
             elif kind == 'srv+':
                 if e[1] in known:
                     continue
+            elif kind == 'srvp':
+                if e[1] not in known:
+                    continue
+                rec = zkutils.get_default(self.admin, z.path.server(e[1])) or {}
+                if rec.get('parent') == e[2]:
+                    continue
             elif kind == 'blk':
                 if (e[1] in self.children(z.BLACKEDOUT_SERVERS)) == bool(e[2]):
                     continue
@@ -692,6 +744,7 @@ class MasterWorld:
             tuple(self.children(z.CELL)),
             tuple(sorted(self.children(z.BLACKEDOUT_SERVERS))),
             tuple(sorted(self.truth.items())), self.bl_idx,
+            tuple(self.pending_truth),
             tuple(sorted(ren(n) for n in self.children(z.FINISHED))),
             (tree.find(z.BLACKEDOUT_APPS).data
              if tree.find(z.BLACKEDOUT_APPS) else None),
